@@ -9,6 +9,7 @@ CONSTANTS
   PolW = "any"
   FormOf <- FormsOrigin
   UpOf <- UpNone
+  ClientOf <- ClientsPlain
   MaxToggles = 0
   MwEnabled = TRUE
   Variant = "asWritten"
